@@ -69,7 +69,7 @@ def history(ck):
                 N = 1500; fs = 10.0
                 x = 0.8 + 0.002 * np.arange(N) + g.standard_normal(N); y = -1.5 + 0.5 * x + g.standard_normal(N)
                 data = np.vstack([x, y]) if cross else x
-                kw = dict(Jdes=15, Kdes=4, order=order, win="hann", olap=0.5, backend=backend, scheduler="ltf")
+                kw = dict(Jdes=15, Kdes=4, order=order, win="hann", olap=(0.75 if cross else 0.5), backend=backend, scheduler="ltf")
                 mk = lambda: SpectrumAnalyzer(data.copy(), fs, **kw)
                 an = mk()
                 rec0 = [np.array(getattr(an, nm), copy=True) for nm in ("x1", "x2") if getattr(an, nm, None) is not None]
@@ -77,6 +77,10 @@ def history(ck):
                          ("compute_single_bin(1.3, L=200)", lambda a: a.compute_single_bin(1.3, L=200)),
                          ("compute()", lambda a: a.compute()),
                          ("compute_single_bin(0.4, L=%d)" % int(0.93 * N), lambda a: a.compute_single_bin(0.4, L=int(0.93 * N)))]
+                # after the full analysis: single-bin requests at segment lengths the plan itself uses (a cached plan must not leak into them)
+                Lp = sorted(set(int(v) for v in np.asarray(mk().plan()["L"]) if 8 <= int(v) < N))
+                for Lq in Lp:
+                    steps.append(("compute_single_bin(0.9, L=%d)" % Lq, lambda a, _L=Lq: a.compute_single_bin(0.9, L=_L)))
                 done = []
                 for what, fn in steps:
                     nops += 1
